@@ -40,6 +40,8 @@ def sig_of(r):
         return "window:roll-sum-update-differs-from-FeeMarket"
     tags, _, _ = _c13rows.classify(r)
     d = "up" if "up" in tags else "down" if "down" in tags else "equal"
+    if "prev-below-min-" + d in tags and int(r["next"]) < int(r["min"]):
+        return "next-price:%s:below-the-minimum-price" % d
     if "window-sum-overflows-before-the-last-slot" in tags:
         return "next-price:%s:window-sum-overflows-before-the-last-slot" % d
     if "intermediate-quotient-beyond-64-bits-result-fits" in tags:
@@ -101,7 +103,7 @@ def run(ctx):
     if rc != 0:
         raise vlib.Infra("fee market recorder failed:\n" + out[-3000:])
     rows = vlib.read_ndjson(os.path.join(ctx.work, "out", "rows.ndjson"))
-    if ctx.only is None and len(rows) < 5 * (calls + ctx.pick(9, 17)) + ctx.pick(55, 180):
+    if ctx.only is None and len(rows) < 5 * (calls + ctx.pick(15, 23)) + ctx.pick(55, 180):
         raise vlib.Infra("recorder wrote %d rows for %d calls" % (len(rows), calls))
     if not rows:
         raise vlib.Infra("recorder wrote no rows")
@@ -137,7 +139,8 @@ def run(ctx):
     if ctx.only is None:
         for t in ("up", "down", "product-beyond-64-bits", "since>=window", "total-saturated", "since-enormous",
                   "elapsed-factor-beyond-64-bits", "intermediate-quotient-beyond-64-bits-result-fits",
-                  "window-sum-overflows-before-the-last-slot", "window-row-sum-overflows-before-the-last-slot"):
+                  "window-sum-overflows-before-the-last-slot", "window-row-sum-overflows-before-the-last-slot",
+                  "prev-below-min-up", "prev-below-min-equal", "prev-below-min-down"):
             if not tagcount.get(t):
                 raise vlib.Infra("vacuity: no recorded row of class " + t)
         if not small_rows:
@@ -194,7 +197,8 @@ def run(ctx):
                                   r.get("target"), r.get("denom"), r.get("min"), r.get("lastSec"), r.get("nowMs"),
                                   r.get("next"), sorted(_c13rows.classify(r)[0]) if "w" in r else "?"))
     vlib.report_failures(ctx, fails, describe)
-    ctx.cov["rule"] = ("hand-picked families (lead, boundary times, intermediate quotient beyond 64 bits, window sum overflowing at "
+    ctx.cov["rule"] = ("hand-picked families (lead, boundary times, intermediate quotient beyond 64 bits, previous price below the minimum "
+                       "in the up/equal/down branches, window sum overflowing at "
                        "every slot position, a 7/12-block history whose near-2^64 slot wanders through the window) and direct "
                        "window.Roll/Sum/Update/Last rows with near-max slots at every position, plus seeded "
                        "rows = (ComputeNext call, dimension) on chains of 1-4 blocks from seeded states: 25% small-valued, 75% "
